@@ -151,6 +151,12 @@ func c13Stmt(kind string, i int) string {
 		return `printf "" >> "f2"`
 	case "emptyp":
 		return `printf "" | "cat"`
+	case "csvemptyf": // a record of one empty field in CSV output mode is written as ""
+		return `OUTPUTMODE = "csv"; print "" > "f1"; OUTPUTMODE = ""`
+	case "csvemptyp":
+		return `OUTPUTMODE = "csv"; print "" | "cat"; OUTPUTMODE = ""`
+	case "csvempty":
+		return `OUTPUTMODE = "csv"; print ""; OUTPUTMODE = ""`
 	case "tofile":
 		return fmt.Sprintf(`print "F%d" > "f1"`, i)
 	case "append":
@@ -271,6 +277,20 @@ loop:
 			}
 		case "emptyp":
 			pipeTo("cat", "")
+		case "csvemptyf":
+			if _, ok := m.openIn["f1"]; ok {
+				m.err = true
+				break loop
+			}
+			if _, ok := m.openOut["f1"]; !ok {
+				m.openOut["f1"] = "file"
+				m.files["f1"] = ""
+			}
+			m.files["f1"] += "\"\"\n"
+		case "csvemptyp":
+			pipeTo("cat", "\"\"\n")
+		case "csvempty":
+			emit("\"\"\n")
 		case "tofile":
 			if _, ok := m.openIn["f1"]; ok {
 				m.err = true
@@ -738,7 +758,7 @@ func c13Run(c *core.Ctx) {
 // stream that close() knows. All sequences of <= 3 operations with at least one
 // such printf.
 func c13EmptyOutput(c *core.Ctx, bound int) {
-	alpha := []string{"emptyf", "emptyt", "emptya", "emptyp", "tofile", "append", "pipe1", "closef", "closea", "closep", "print"}
+	alpha := []string{"emptyf", "emptyt", "emptya", "emptyp", "csvemptyf", "csvemptyp", "csvempty", "tofile", "append", "pipe1", "closef", "closea", "closep", "print"}
 	for n := 1; n <= 3; n++ {
 		idx := make([]int, n)
 		for {
@@ -746,7 +766,7 @@ func c13EmptyOutput(c *core.Ctx, bound int) {
 			has := false
 			for i, k := range idx {
 				ops[i] = alpha[k]
-				has = has || strings.HasPrefix(ops[i], "empty")
+				has = has || strings.Contains(ops[i], "empty")
 			}
 			if has && !c.Expired() && c.Mine() {
 				c13RunSeq(c, ops, bound-1)
